@@ -46,3 +46,4 @@ if __name__ == "__main__":
 import translate_c11
 import translate_suborder
 import translate_relpair
+import translate_relset
